@@ -151,7 +151,7 @@ def make_runloop(K, awaits, starts=2, reach=False):
     return fn
 
 
-BEHAVIOURS = ["finish", "raise", "raise_base", "forever", "slow_cancel", "handover", "cleanup_on_cancel"]
+BEHAVIOURS = ["finish", "raise", "raise_base", "forever", "slow_cancel", "handover", "self_stop", "cleanup_on_cancel"]
 
 
 class TaskBaseError(BaseException):
@@ -163,7 +163,7 @@ def make_service(ntasks, allow_cleanup=False, reach=False):
 
     def fn(ex):
         beh = [BEHAVIOURS[ex.choice(f"behaviour{i}", nb)] for i in range(ntasks)]
-        op = ["stop", "wait", "cancel_wait", "stop_twice"][ex.choice("operation", 4)]
+        op = ["stop", "wait", "cancel_wait", "stop_twice", "wait_and_stop"][ex.choice("operation", 5)]
         late = ex.flag("operate_after_2s")
         child_fails = ex.flag("child_raises")
         all_tasks, errors_expected = [], []
@@ -195,6 +195,9 @@ def make_service(ntasks, allow_cleanup=False, reach=False):
                     elif b == "raise_base":
                         await asyncio.sleep(1.0)
                         raise TaskBaseError(f"task {i} failed with a BaseException")
+                    elif b == "self_stop":   # the service is stopped from one of its own tasks
+                        await asyncio.sleep(1.0)
+                        await self.stop()
                     elif b == "handover":
                         await asyncio.sleep(1.0)
                         self._spawn()
@@ -219,6 +222,14 @@ def make_service(ntasks, allow_cleanup=False, reach=False):
                 elif op == "stop_twice":
                     await asyncio.wait_for(s.stop(), 100.0)
                     await asyncio.wait_for(s.stop(), 100.0)
+                elif op == "wait_and_stop":   # a second waiter is already pending when stop() is called
+                    other = asyncio.create_task(s.wait())
+                    await asyncio.sleep(0)
+                    try:
+                        await asyncio.wait_for(s.stop(), 100.0)
+                    finally:
+                        other.cancel()
+                        await asyncio.gather(other, return_exceptions=True)
                 elif op == "wait":
                     await asyncio.wait_for(s.wait(), 100.0)
                 else:
@@ -253,7 +264,7 @@ def make_service(ntasks, allow_cleanup=False, reach=False):
         ex.check(all(d for d, _c in states), f"{op}() returned while a task it owns is still running: {states}")
         ex.check(not running, f"service still reports is_running after {op}()")
         got = [] if raised in (None, "timeout") else list(raised.exceptions)
-        if op in ("stop", "stop_twice"):
+        if op in ("stop", "stop_twice", "wait_and_stop"):
             ex.check(not any(isinstance(e, asyncio.CancelledError) for e in got), "stop() surfaced a CancelledError")
         noncancel = [e for e in got if not isinstance(e, asyncio.CancelledError)]
         ex.check(sorted(map(repr, noncancel)) == sorted(map(repr, errs)),
@@ -355,7 +366,7 @@ def instances(tier):
         I("reach:runloop", "make_runloop", (2, 1, 2, True), "reachability twin", budget_s=60, validate_every=0),
         I("runloop-K3-await1", "make_runloop", (3, 1), "<= 3 runs per start, 1 await point, the same actor started twice", budget_s=200, validate_every=50),
         I("runloop-K2-await2", "make_runloop", (2, 2), "<= 2 runs per start, 2 await points, 2 starts", budget_s=200, validate_every=50),
-        I("service-2", "make_service", (2, True), "2 tasks x 7 behaviours (incl. a BaseException that is neither Exception nor CancelledError), 4 operations, 2 instants", budget_s=200, validate_every=20),
+        I("service-2", "make_service", (2, True), "2 tasks x 8 behaviours (incl. a BaseException that is neither Exception nor CancelledError, and a task that stops its own service), 5 operations (incl. stop() while another wait() is pending), 2 instants", budget_s=200, validate_every=20),
         I("run-2", "make_run", (), "run() with 2 actors", budget_s=100, validate_every=10),
         I("actor-start-while-stopping", "make_actor_restart", (), "start() while the previous run is being cancelled / cleaning up", budget_s=100, validate_every=5),
     ]
